@@ -41,7 +41,9 @@ CLAIMS = {
              'attains it, (d) amplitude j is that of channel j, (e) listed channels are exactly the near ones on the peak shank reaching the threshold — about 100 obligations incl. 13 stepping-stone hints. '
              '_get_template_dense (the record plumbing, automatic and explicit channel lists, with and without unwhitening): one waveform column and one amplitude per listed channel, amplitude j is the '
              'peak-to-peak of column j of the RETURNED waveform, an explicit list is returned as given, the automatic list is non-empty, distinct, in range, lists the peak channel and has decreasing amplitudes. '
-             'BOUNDED only: _get_template_sparse, the numeric content of unwhitening/casts, accessors, on exhaustive small templates and loaded datasets.',
+             '_get_template_sparse over the rank-2 theory with uninterpreted stored values: the listed channels are exactly the stored ones that are used (not -1) and carry signal (largest magnitude above 1e-6 of the '
+             'template maximum), amplitudes decrease, amplitude j bounds every difference of two samples of returned column j and is attained there, the peak channel is listed with the largest amplitude, and a whitened '
+             'request returns the stored columns themselves. BOUNDED only: the numeric content of unwhitening/casts, accessors, templates without any signal (known finding), on exhaustive small templates and loaded datasets.',
         note='Assumed: the 1-D NumPy theory of pyvc/npth.py (argsort, argmax, nonzero, intersect1d, gather, comparisons); squares abstracted by sq(t)>=0 and sq(t)=0 iff t=0; products of two reals by sign/scaling facts; '
              'no NaN in templates; pairwise distinct channel positions; "near" is DEFINED as membership in the result of get_closest_channels (A-DEF); a 2-D template is seen through its per-channel '
              'extremes: templates[i, ...], _unwhiten and astype return a template of the same width (values unspecified), t[:, ids] permutes the extremes, Bunch(**kw) is a record of the given values.',
